@@ -33,7 +33,7 @@ KIND_NOTES: list = []
 
 def _probe(griffe, old_params: str, new_params: str) -> set:
     """{(KIND, parameter)} the public find_breaking_changes yields for def f(old) -> def f(new)."""
-    mods = [griffe.visit("m", filepath=Path("m.py"), code=f"d1 = 1\nd2 = 2\n\n\ndef f({p}):\n    pass\n") for p in (old_params, new_params)]
+    mods = [griffe.visit("m", filepath=Path("m.py"), code=f"def f({p}):\n    pass\n") for p in (old_params, new_params)]
     out = set()
     for b in griffe.find_breaking_changes(*mods):
         kind = b.kind.name.replace("PARAMETER_", "")
@@ -108,7 +108,7 @@ def render(sig) -> str:
 
 
 def source(sig) -> str:
-    return f"d1 = 1\nd2 = 2\n\n\ndef f({render(sig)}):\n    pass\n"
+    return f"def f({render(sig)}):\n    pass\n"      # d1, d2 are supplied by the namespace when executed
 
 
 def calls(names):
@@ -120,7 +120,7 @@ def cpython_binds(sig, names) -> tuple[set, int]:
     """Set of call shapes the interpreter binds against `def f(<sig>)`; number of shapes where
     inspect.Signature.bind deviates from the interpreter inside the one documented class."""
     src = source(sig)
-    ns: dict = {}
+    ns: dict = {"d1": 1, "d2": 2}
     try:
         exec(compile(src, "<c10>", "exec", dont_inherit=True), ns)  # noqa: S102
     except SyntaxError as exc:
@@ -162,7 +162,7 @@ def lost_call(old_sig, new_sig, call) -> bool:
     """Antecedent of clause (i) evaluated for real: the call binds against old and not against new."""
     res = []
     for sig in (old_sig, new_sig):
-        ns: dict = {}
+        ns: dict = {"d1": 1, "d2": 2}
         exec(compile(source(sig), "<c10>", "exec", dont_inherit=True), ns)  # noqa: S102
         try:
             ns["f"](*range(call[0]), **{k: 0 for k in call[1]})
@@ -182,6 +182,36 @@ def visit_module(griffe, sig):
         # only counts the mismatches (C02 owns the extraction itself).
         MISLOADED.append(f"def f({render(sig)}) loaded as {got}")
     return mod
+
+
+def build_inplace(griffe, old_mod, new_mod, ops):
+    """Route "inplace" of DiffSig.tla: a function holding the OLD parameters, whose container is then looked up
+    by name and edited through the public Parameters API (by integer index) into the new signature.
+    Returns (module, "ok") or (None, outcome)."""
+    of, nf = old_mod["f"], new_mod["f"]
+    try:
+        fn = griffe.Function("f", parameters=griffe.Parameters(*list(of.parameters)))
+        params = fn.parameters
+        for op in ops:
+            i = op["i"] - 1
+            if op["op"] == "lookup":
+                name = of.parameters[i].name
+                if name not in params or params[name].name != name:
+                    return None, "lookup-failed"
+            elif op["op"] == "set":
+                params[i] = nf.parameters[i]
+            elif op["op"] == "del":
+                del params[i]
+            else:
+                params.add(nf.parameters[i])
+        proj = lambda ps: [(p.name, p.kind, str(p.default)) for p in ps]  # noqa: E731
+        if proj(params) != proj(nf.parameters):
+            return None, "container-differs-from-history"       # I_RouteIndependent on the real container
+        mod = griffe.Module("m", filepath=Path("m.py"))
+        mod.set_member("f", fn)
+    except Exception as exc:  # noqa: BLE001
+        return None, type(exc).__name__
+    return mod, "ok"
 
 
 def real_breakages(griffe, old_mod, new_mod):
